@@ -15,6 +15,8 @@ for i in ids:
     for p in re.findall(r"C\d\d", det) + meta.get("breaks", []):
         if p not in props: props.append(p)
     expected_miss = det.lower().startswith(("not detected", "missed", "none"))
+    if "superseded" in meta:
+        print("%-5s superseded by the F1 repair (applies to 69b45c6 only)" % i, flush=True); continue
     assert sh("git status --porcelain", "/repo").stdout.strip() == "", "/repo not clean"
     a = sh("git apply %s/seeded/%s/patch.diff" % (ROOT, i), "/repo")
     if a.returncode != 0:
